@@ -49,6 +49,7 @@ type Conn struct {
 	Closed     bool
 	ClosedAt   time.Time
 	PSyncAt    time.Time
+	Replica    bool // the connection sent SYNC/PSYNC
 	Done       chan struct{} // closed when the plan has been played
 }
 
@@ -69,6 +70,7 @@ type Source struct {
 	plans    []Plan
 	Conns    []*Conn
 	closed   bool
+	addr     string
 	Default  *Plan // used when the plans are exhausted (nil: refuse)
 }
 
@@ -79,18 +81,48 @@ func New(password string, plans ...Plan) *Source {
 		panic(err)
 	}
 	s.ln = ln
+	s.addr = ln.Addr().String()
 	go s.acceptLoop()
 	return s
 }
 
-func (s *Source) Addr() string { return s.ln.Addr().String() }
+func (s *Source) Addr() string { return s.addr }
+
+// Pause stops listening for d (connection attempts are refused), then listens again on the same port.
+func (s *Source) Pause(d time.Duration) {
+	s.mu.Lock()
+	ln := s.ln
+	s.mu.Unlock()
+	ln.Close()
+	time.AfterFunc(d, func() {
+		for i := 0; i < 50; i++ {
+			nl, err := net.Listen("tcp", s.addr)
+			if err == nil {
+				s.mu.Lock()
+				closed := s.closed
+				if !closed {
+					s.ln = nl
+				}
+				s.mu.Unlock()
+				if closed {
+					nl.Close()
+					return
+				}
+				go s.acceptLoop()
+				return
+			}
+			time.Sleep(20 * time.Millisecond)
+		}
+	})
+}
 
 func (s *Source) Close() {
 	s.mu.Lock()
 	s.closed = true
 	conns := append([]*Conn(nil), s.Conns...)
+	ln := s.ln
 	s.mu.Unlock()
-	s.ln.Close()
+	ln.Close()
 	for _, c := range conns {
 		c.c.Close()
 	}
@@ -109,8 +141,11 @@ func (s *Source) AddPlan(p Plan) {
 }
 
 func (s *Source) acceptLoop() {
+	s.mu.Lock()
+	ln := s.ln
+	s.mu.Unlock()
 	for {
-		nc, err := s.ln.Accept()
+		nc, err := ln.Accept()
 		if err != nil {
 			return
 		}
@@ -123,24 +158,18 @@ func (s *Source) acceptLoop() {
 			nc.Close()
 			return
 		}
-		var plan *Plan
-		if len(s.plans) > 0 {
-			p := s.plans[0]
-			s.plans = s.plans[1:]
-			plan = &p
-		} else {
-			plan = s.Default
-		}
 		c := &Conn{ID: len(s.Conns), c: nc, Done: make(chan struct{})}
 		s.Conns = append(s.Conns, c)
+		refuseAll := len(s.plans) == 0 && s.Default != nil && s.Default.Refuse
 		s.mu.Unlock()
-		if plan == nil || plan.Refuse {
+		if refuseAll {
 			c.markClosed()
 			nc.Close()
 			close(c.Done)
 			continue
 		}
-		go s.serve(c, *plan)
+		go s.serve(c)
+		continue
 	}
 }
 
@@ -185,7 +214,20 @@ func readCmd(br *bufio.Reader) ([]string, error) {
 	return out, nil
 }
 
-func (s *Source) serve(c *Conn, plan Plan) {
+// takePlan hands the next plan to a connection that has just asked for SYNC/PSYNC (other
+// connections, e.g. the tool's offset poller, never consume one).
+func (s *Source) takePlan() *Plan {
+	s.mu.Lock()
+	defer s.mu.Unlock()
+	if len(s.plans) > 0 {
+		p := s.plans[0]
+		s.plans = s.plans[1:]
+		return &p
+	}
+	return s.Default
+}
+
+func (s *Source) serve(c *Conn) {
 	br := bufio.NewReader(c.c)
 	started := false
 	startCh := make(chan []Step, 1)
@@ -223,7 +265,13 @@ func (s *Source) serve(c *Conn, plan Plan) {
 				started = true
 				c.mu.Lock()
 				c.PSyncAt = time.Now()
+				c.Replica = true
 				c.mu.Unlock()
+				plan := s.takePlan()
+				if plan == nil || plan.Refuse {
+					startCh <- []Step{{Close: true}}
+					continue
+				}
 				steps := plan.Steps
 				if plan.OnPSync != nil && len(argv) == 3 {
 					off, _ := strconv.ParseInt(argv[2], 10, 64)
@@ -243,7 +291,7 @@ func (s *Source) serve(c *Conn, plan Plan) {
 	var steps []Step
 	select {
 	case steps = <-startCh:
-	case <-time.After(60 * time.Second):
+	case <-time.After(120 * time.Second):
 		c.c.Close()
 		c.markClosed()
 		close(c.Done)
